@@ -76,7 +76,7 @@ def gen_descs(ctx):
                     iters=rng.choice([0, 1, 2, 3]), strict=rng.random() < 0.7))
   sub = Ctx(ID, ctx.tier, ctx.seed + 17)
   for d in c04.gen_descs(sub):
-    if d["kind"] == "proj" and len(out) < ctx.n(70, 1500) + ctx.n(60, 1200):
+    if d["kind"] == "proj" and not d.get("cyclic") and len(out) < ctx.n(70, 1500) + ctx.n(60, 1200):
       d = dict(d, kind="pwl", via_layer=False)
       if d["units"] == 1:
         d["units"] = 3
